@@ -115,10 +115,16 @@ def _steps_end() -> int:
 
 # ----------------------------------------------------------------------------
 class World:
-    def __init__(self, budget=STEP_BUDGET):
+    def __init__(self, budget=STEP_BUDGET, dot_root=False):
         self.base = tempfile.mkdtemp(prefix="clsim-", dir=scratch_parent())
-        self.root = os.path.join(self.base, "root")
-        self.outside = os.path.join(self.base, "outside")
+        # `top` holds the codebase root and its sibling `outside`; with dot_root the whole
+        # checkout lives below a dot-directory (~/.jenkins/workspace/proj): only components
+        # BELOW the root may hide a file
+        self.top = os.path.join(self.base, ".ws") if dot_root else self.base
+        if dot_root:
+            REAL["os.mkdir"](self.top)
+        self.root = os.path.join(self.top, "root")
+        self.outside = os.path.join(self.top, "outside")
         REAL["os.mkdir"](self.root)
         REAL["os.mkdir"](self.outside)
         self.cli_excludes: list[str] = []
@@ -411,7 +417,7 @@ class World:
         if sp == "dot":
             return self.root, "."
         if sp == "rel_parent":
-            return self.base, name
+            return self.top, name
         if sp == "abs":
             return self.outside, self.root
         if sp == "dotdot":
@@ -421,7 +427,7 @@ class World:
         if sp == "rel_outside":
             return self.outside, os.path.join("..", name)
         if sp == "trailing":
-            return self.base, name + os.sep
+            return self.top, name + os.sep
         if sp in ("symlink", "symlink_abs"):
             link = os.path.join(self.base, "link")
             if not os.path.islink(link):
@@ -551,7 +557,7 @@ class World:
     def check(self, args, cwd_mode, quiet, nonce, set_policy="mixed", walk_policy="shuffled", excludes=None):
         import codelimit.__main__ as cli
         from pathlib import Path
-        cwd = {"root": self.root, "outside": self.outside, "base": self.base}.get(cwd_mode)
+        cwd = {"root": self.root, "outside": self.outside, "base": self.top}.get(cwd_mode)
         if cwd is None and cwd_mode.startswith("sub:"):
             cwd = self.p(cwd_mode[4:])
             if not os.path.isdir(cwd):
